@@ -20,7 +20,8 @@ MT19937 / numpy RandomState / scipy.stats.multinomial.rvs are ORACLES: the harne
 model names (kind, seed), replays the requests the model predicts in the predicted order and expects bit-identical
 values.
 Translator ties, re-proved on every run: _random_number_to_data (gen/py2coq.py, coq/gen/C14_Equiv.v); calc_empi_dist_sequence, to_stream,
-Experiment.reset_seed_data / .seed_data, QTomography.reset_seed (gen/c14_py2coq.py, coq/gen/C14_Equiv2.v).  When a tie breaks, the sub-checks
+Experiment.reset_seed_data / .seed_data, QTomography.reset_seed, the three loop functions of data_generator around the draws and the
+12 tomography entry points (gen/c14_py2coq.py, coq/gen/C14_Equiv2.v).  When a tie breaks, the sub-checks
 that exercise the function sweep with the thorough counts (search for a concrete failing input).
 The model is the code AS REPAIRED by /verif/fixes/C14-*.diff: on a tree without those repairs the sub-checks raise violations
 (each with a concrete replay) and the regenerated-model equivalence (coq/gen/C14_Equiv.v) does not compile."""
